@@ -194,6 +194,9 @@ func (e *env) udpPseudoTap(ev tunnelmesh.FrameEvent) {
 		priv, pub := e.responderKeypair()
 		shared, err := crypto.ComputeECDH(priv, open.EphemeralPubKey)
 		if err != nil {
+			e.c.Fail("open-arrived-without-usable-key:udp", fmt.Sprintf("the UDP_OPEN reached the exit end with ephemeral key %x (%v): an exit would run this association unencrypted", open.EphemeralPubKey[:8], err), map[string]any{"kind": "udp"})
+			oe := &protocol.UDPOpenErr{RequestID: open.RequestID, ErrorCode: protocol.ErrGeneralFailure, Message: "no usable ephemeral key"}
+			go e.mesh.Inject(3, 2, 0x32, 0, ev.StreamID, oe.Encode())
 			return
 		}
 		key := crypto.DeriveSessionKey(shared, open.RequestID, open.EphemeralPubKey, pub, false)
@@ -229,7 +232,7 @@ func (e *env) zeroKeysAtIngress() {
 
 		// UDP
 		e.pseudoUDP.Store(true)
-		ctx, cancel := context.WithTimeout(context.Background(), 15*time.Second)
+		ctx, cancel := context.WithTimeout(context.Background(), 6*time.Second)
 		base, err := a.CreateUDPAssociation(ctx, &net.UDPAddr{IP: net.IPv4(127, 0, 0, 1), Port: 40002})
 		if err == nil {
 			can := e.c.Rand.Bytes(64)
@@ -260,10 +263,13 @@ func (e *env) zeroKeysAtIngress() {
 
 		// ICMP, both ingress paths
 		for _, ws := range []bool{false, true} {
+			if e.tooManyOpenFailures("icmp") {
+				break
+			}
 			e.imu.Lock()
 			e.icmpKey, e.icmpGot = nil, nil
 			e.imu.Unlock()
-			ctx, cancel := context.WithTimeout(context.Background(), 15*time.Second)
+			ctx, cancel := context.WithTimeout(context.Background(), 6*time.Second)
 			can := e.c.Rand.Bytes(64)
 			m := e.rec.mark()
 			var sid uint64
@@ -281,6 +287,7 @@ func (e *env) zeroKeysAtIngress() {
 				}
 			}
 			if err != nil {
+				e.openFailed("icmp")
 				e.c.Fail("tunnel-open-failed", "icmp (zero-byte key sweep): "+err.Error(), replay)
 			} else {
 				up := func(ev tunnelmesh.FrameEvent) bool { return ev.From == 0 && ev.To == 1 && ev.Type == fICMPEcho }
@@ -326,15 +333,19 @@ func (e *env) wsICMPCloseRace() {
 	a, d := e.mesh.Nodes[0].Agent, e.mesh.Nodes[3].Agent
 	reps := e.c.N(16, 40)
 	for r := 0; r < reps; r++ {
+		if e.tooManyOpenFailures("icmp") {
+			return
+		}
 		e.imu.Lock()
 		e.icmpKey, e.icmpGot = nil, nil
 		e.imu.Unlock()
-		ctx, cancel := context.WithTimeout(context.Background(), 15*time.Second)
+		ctx, cancel := context.WithTimeout(context.Background(), 6*time.Second)
 		sess, err := a.OpenICMPSession(ctx, d.ID(), net.IPv4(127, 0, 0, 1))
 		if err != nil {
 			cancel()
+			e.openFailed("icmp")
 			e.c.Fail("tunnel-open-failed", "icmp ws close race: "+err.Error(), nil)
-			return
+			continue
 		}
 		m := e.rec.mark()
 		var canaries [][]byte
